@@ -41,7 +41,8 @@ Definition gstep (g : ghost) (o : op) : ghost :=
 (* operations of the generic cache and of its readers (no part-store operations) *)
 Definition cache_op (o : op) : bool :=
   match o with
-  | PPut _ _ | PInner _ _ | PDelete _ | POpen _ _ | PGet _ => false
+  | PPut _ _ | PInner _ _ | PDelete _ | POpen _ _ | PGet _
+  | POpenF _ _ _ | PGetF _ _ | PGetClose _ _ | PPutFail _ _ | PDeleteFail _ | PPutStoreFail _ _ _ => false
   | _ => true
   end.
 
@@ -65,25 +66,50 @@ Definition seq_op (o : op) : bool :=
 Definition pstep (cur : list (bytes * bytes)) (o : op) : list (bytes * bytes) :=
   match o with
   | PPut id v => aset id v cur
+  | PPutStoreFail id v _ => aset id v cur          (* the inner put succeeded; only the cache write failed *)
   | PInner id v => match alookup id cur with Some _ => cur | None => aset id v cur end
   | PDelete id => aremove id cur
-  | _ => cur
+  | _ => cur                                        (* PPutFail / PDeleteFail: the inner store refused, nothing changes *)
   end.
 
-(* every complete GetPart answers exactly what the inner store holds at that moment *)
+(* what one complete GetPart may answer when the inner store holds [cur]:
+   - without fault: exactly the stored bytes, or not-found when there are none;
+   - inner reader failing after k bytes: the stored bytes (served from the cache, or the part is not longer than k),
+     or the k-byte prefix TOGETHER WITH the error — never a prefix without the error;
+   - inner GetPart failing: the stored bytes (cache hit) or the error;
+   - reader closed after n bytes: the first n stored bytes *)
+Definition get_ok (cur : list (bytes * bytes)) (o : op) (r : res) : Prop :=
+  match o with
+  | PGet id | PGetF id FNone =>
+      match alookup id cur with Some v => r = RVal v | None => r = RNotFound end
+  | PGetF id (FReadFail k) =>
+      match alookup id cur with
+      | Some v => r = RVal v \/ (k < length v /\ r = RValErr (firstn k v))
+      | None => r = RNotFound
+      end
+  | PGetF id FOpenErr =>
+      match alookup id cur with Some v => r = RVal v \/ r = RErr | None => r = RErr end
+  | PGetClose id n =>
+      match alookup id cur with Some v => r = RVal (firstn n v) | None => r = RNotFound end
+  | PPutFail _ _ | PDeleteFail _ => r = RErr
+  | _ => True
+  end.
+
 Fixpoint part_sound (cur : list (bytes * bytes)) (ops : list op) (rs : list res) : Prop :=
   match ops, rs with
   | [], [] => True
-  | o :: ops', r :: rs' =>
-      match o with
-      | PGet id => match alookup id cur with
-                   | Some v => r = RVal v
-                   | None => r = RNotFound
-                   end
-      | _ => True
-      end /\ part_sound (pstep cur o) ops' rs'
+  | o :: ops', r :: rs' => get_ok cur o r /\ part_sound (pstep cur o) ops' rs'
   | _, _ => False
   end.
 
+(* part-store histories in which every GetPart runs to its end (or to its early Close) before the next operation
+   starts, with any of the faults except a persistor failure during the miss fill (that one makes the reader hang:
+   finding C19-fill-store-error-hangs-reader).  Overlapping readers/fills are the regions of the open findings
+   C19-fs-inplace-partial and C19-stale-fill-after-delete. *)
 Definition part_seq_op (o : op) : bool :=
-  match o with PPut _ _ | PInner _ _ | PDelete _ | PGet _ => true | _ => false end.
+  match o with
+  | PPut _ _ | PInner _ _ | PDelete _ | PGet _ | PGetClose _ _ | PPutFail _ _ | PDeleteFail _ | PPutStoreFail _ _ _ => true
+  | PGetF _ (FStoreFail _) => false
+  | PGetF _ _ => true
+  | _ => false
+  end.
